@@ -39,10 +39,10 @@ func (p *pkgImporter) Import(path string) (*types.Package, error) {
 }
 
 var (
-	fset     = token.NewFileSet()
-	imp      = &pkgImporter{def: importer.ForCompiler(fset, "source", nil), pkgs: map[string]*types.Package{}}
-	raceMode = flag.Bool("race", false, "also rewrite map operations into visible memory accesses")
-	tags     = flag.String("tags", "verif", "build tags that are on (for //go:build filtering)")
+	fset      = token.NewFileSet()
+	imp       = &pkgImporter{def: importer.ForCompiler(fset, "source", nil), pkgs: map[string]*types.Package{}}
+	raceMode  = flag.Bool("race", false, "also rewrite map operations into visible memory accesses")
+	tags      = flag.String("tags", "verif", "build tags that are on (for //go:build filtering)")
 	noRewrite = flag.String("typecheck-only", "", "comma-separated import paths that are only type-checked (the shim itself)")
 )
 
@@ -78,12 +78,22 @@ func main() {
 			fail("%s: %v", p[0], err)
 		}
 	}
+	// phase 2: rewrite, once the mutable fields / package-level variables of ALL packages are known
+	// (a field of package A that only package B assigns after construction is mutable in A too)
+	for _, f := range pending {
+		if err := f(); err != nil {
+			fail("%v", err)
+		}
+	}
 }
+
+var pending []func() error
+var allMutable = map[*types.Var]bool{}
 
 func sel(x, s string) *ast.SelectorExpr {
 	return &ast.SelectorExpr{X: ast.NewIdent(x), Sel: ast.NewIdent(s)}
 }
-func vsel(s string) *ast.SelectorExpr { return sel(shimAlias, s) }
+func vsel(s string) *ast.SelectorExpr                 { return sel(shimAlias, s) }
 func call(f ast.Expr, args ...ast.Expr) *ast.CallExpr { return &ast.CallExpr{Fun: f, Args: args} }
 func method(x ast.Expr, m string, args ...ast.Expr) *ast.CallExpr {
 	return call(&ast.SelectorExpr{X: x, Sel: ast.NewIdent(m)}, args...)
@@ -161,27 +171,50 @@ func collectMutableFields(f *ast.File, info *types.Info, m map[*types.Var]bool) 
 	})
 }
 
-func (r *rewriter) ptrIdentBase(se *ast.SelectorExpr) *ast.Ident {
-	id, ok := se.X.(*ast.Ident)
-	if !ok {
-		return nil
-	}
-	t := r.info.TypeOf(id)
+// ptrIdentBase: the base of a field selector when it is a pointer-typed expression that can be
+// evaluated a second time without side effects: an identifier, or an index expression over
+// identifiers / literals (m[k].F, s[i].F). Returned as a fresh copy.
+func (r *rewriter) ptrIdentBase(se *ast.SelectorExpr) ast.Expr {
+	t := r.info.TypeOf(se.X)
 	if t == nil {
 		return nil
 	}
 	if _, ok := t.Underlying().(*types.Pointer); !ok {
 		return nil
 	}
-	return id
+	return pureCopy(se.X)
 }
 
-func (r *rewriter) accessStmt(se *ast.SelectorExpr, id *ast.Ident, write bool) ast.Stmt {
+func pureCopy(e ast.Expr) ast.Expr {
+	switch x := e.(type) {
+	case *ast.Ident:
+		return ast.NewIdent(x.Name)
+	case *ast.BasicLit:
+		return &ast.BasicLit{Kind: x.Kind, Value: x.Value}
+	case *ast.ParenExpr:
+		if c := pureCopy(x.X); c != nil {
+			return &ast.ParenExpr{X: c}
+		}
+	case *ast.IndexExpr:
+		bx, ok1 := x.X.(*ast.Ident)
+		if !ok1 {
+			return nil
+		}
+		ix := pureCopy(x.Index)
+		if _, isIdx := x.Index.(*ast.IndexExpr); isIdx || ix == nil {
+			return nil
+		}
+		return &ast.IndexExpr{X: ast.NewIdent(bx.Name), Index: ix}
+	}
+	return nil
+}
+
+func (r *rewriter) accessStmt(se *ast.SelectorExpr, base ast.Expr, write bool) ast.Stmt {
 	fn := "R"
 	if write {
 		fn = "W"
 	}
-	return &ast.ExprStmt{X: call(vsel(fn), &ast.UnaryExpr{Op: token.AND, X: &ast.SelectorExpr{X: ast.NewIdent(id.Name), Sel: ast.NewIdent(se.Sel.Name)}})}
+	return &ast.ExprStmt{X: call(vsel(fn), &ast.UnaryExpr{Op: token.AND, X: &ast.SelectorExpr{X: base, Sel: ast.NewIdent(se.Sel.Name)}})}
 }
 
 // readsIn collects instrumentable field reads of an expression (not descending into function
@@ -343,7 +376,10 @@ func (r *rewriter) collectAccesses(list []ast.Stmt) {
 	}
 }
 
-func (r *rewriter) tmp(p string) *ast.Ident { r.n++; return ast.NewIdent(fmt.Sprintf("__%s%d", p, r.n)) }
+func (r *rewriter) tmp(p string) *ast.Ident {
+	r.n++
+	return ast.NewIdent(fmt.Sprintf("__%s%d", p, r.n))
+}
 
 func (r *rewriter) isChan(e ast.Expr) bool {
 	t := r.info.TypeOf(e)
@@ -433,53 +469,59 @@ func instrument(importPath, src, dst string, typecheckOnly bool) error {
 			continue
 		}
 		os.MkdirAll(dst, 0777)
-		mutable := map[*types.Var]bool{}
+		mutable := allMutable
+		race := pkgRace
 		if pkgRace {
 			for _, f := range files {
 				collectMutableFields(f, info, mutable)
 			}
 		}
-		for i, f := range files {
-			bl := buildLine(f)
-			r := &rewriter{info: info, file: names[i], mutable: mutable}
-			nf := r.rewrite(f)
-			uses := false
-			ast.Inspect(nf, func(n ast.Node) bool {
-				if id, ok := n.(*ast.Ident); ok && id.Name == shimAlias {
-					uses = true
+		files, names, info, dst := files, names, info, dst
+		pending = append(pending, func() error {
+			pkgRace = race
+			for i, f := range files {
+				bl := buildLine(f)
+				r := &rewriter{info: info, file: names[i], mutable: mutable}
+				nf := r.rewrite(f)
+				uses := false
+				ast.Inspect(nf, func(n ast.Node) bool {
+					if id, ok := n.(*ast.Ident); ok && id.Name == shimAlias {
+						uses = true
+					}
+					return true
+				})
+				if uses {
+					astutil.AddNamedImport(fset, nf, shimAlias, "vs")
 				}
-				return true
-			})
-			if uses {
-				astutil.AddNamedImport(fset, nf, shimAlias, "vs")
-			}
-			for _, is := range append([]*ast.ImportSpec{}, nf.Imports...) {
-				p := strings.Trim(is.Path.Value, "\"")
-				if is.Name != nil && (is.Name.Name == "_" || is.Name.Name == ".") {
-					continue
-				}
-				if !astutil.UsesImport(nf, p) {
-					if is.Name != nil {
-						astutil.DeleteNamedImport(fset, nf, is.Name.Name, p)
-					} else {
-						astutil.DeleteImport(fset, nf, p)
+				for _, is := range append([]*ast.ImportSpec{}, nf.Imports...) {
+					p := strings.Trim(is.Path.Value, "\"")
+					if is.Name != nil && (is.Name.Name == "_" || is.Name.Name == ".") {
+						continue
+					}
+					if !astutil.UsesImport(nf, p) {
+						if is.Name != nil {
+							astutil.DeleteNamedImport(fset, nf, is.Name.Name, p)
+						} else {
+							astutil.DeleteImport(fset, nf, p)
+						}
 					}
 				}
+				// comments attach to the wrong nodes after rewriting: drop them
+				nf.Comments = nil
+				nf.Doc = nil
+				var buf bytes.Buffer
+				if bl != "" {
+					buf.WriteString(bl + "\n\n")
+				}
+				if err := format.Node(&buf, fset, nf); err != nil {
+					return fmt.Errorf("%s: %v", names[i], err)
+				}
+				if err := os.WriteFile(filepath.Join(dst, filepath.Base(names[i])), buf.Bytes(), 0644); err != nil {
+					return err
+				}
 			}
-			// comments attach to the wrong nodes after rewriting: drop them
-			nf.Comments = nil
-			nf.Doc = nil
-			var buf bytes.Buffer
-			if bl != "" {
-				buf.WriteString(bl + "\n\n")
-			}
-			if err := format.Node(&buf, fset, nf); err != nil {
-				return fmt.Errorf("%s: %v", names[i], err)
-			}
-			if err := os.WriteFile(filepath.Join(dst, filepath.Base(names[i])), buf.Bytes(), 0644); err != nil {
-				return err
-			}
-		}
+			return nil
+		})
 	}
 	return nil
 }
